@@ -662,16 +662,20 @@ impl Vm {
         if expr.is_vector() {
             let vector = expr.as_vector().unwrap();
 
-            let new_vector = self.heap.put(VCell::vector(vec![]));
-            lambda.emit(OpCode::MovImmediate);
-            lambda.emit(new_vector);
-            lambda.emit(VCell::Acc);
-
+            // A quasiquoted vector is allocated anew each time the template is
+            // evaluated: push the elements and apply the `vector` procedure.
             for it in vector {
-                lambda.emit(OpCode::PushAcc);
                 self.compile_quasiquote(lambda, it, depth)?;
-                lambda.emit(OpCode::VPushAcc);
+                lambda.emit(OpCode::PushAcc);
             }
+            lambda.emit(OpCode::PushImmediate);
+            lambda.emit(VCell::ArgumentCount(vector.len()));
+            let sym_ref = self.heap.put_cell(&Cell::new_symbol("vector")).as_ptr()?;
+            let env_slot = VCell::env_slot(self.globenv.get_binding(sym_ref));
+            lambda.emit(OpCode::Mov);
+            lambda.emit(env_slot);
+            lambda.emit(VCell::Acc);
+            lambda.emit(OpCode::CallAcc);
 
             return Ok(());
         }
